@@ -2,6 +2,7 @@ CONSTANTS Streams <- Huge
   LenOf <- Lens
   ReadMax = 65535
   MaxReads = 2
+  Fails <- NoFail
   Cuts <- HugeCuts
   D = 0
 INIT Init
